@@ -211,6 +211,17 @@ pub fn run(t: &[String]) -> String {
             let b = utc.bucket_of(ts, &g);
             format!("C {} U {} N {}", a, b, naive_bucket_of(ts, &g))
         }
+        // agg_buckettz <gran> <week_start> <ts> <tz name> <offset secs (model side only)>
+        "agg_buckettz" => {
+            let g = match gran(&t[1]) { Some(g) => g, None => return "BADGRAN".into() };
+            let ws = match t[2].as_str() {
+                "0" => chrono::Weekday::Mon, "1" => chrono::Weekday::Tue, "2" => chrono::Weekday::Wed, "3" => chrono::Weekday::Thu,
+                "4" => chrono::Weekday::Fri, "5" => chrono::Weekday::Sat, _ => chrono::Weekday::Sun,
+            };
+            let ts: u64 = t[3].parse().unwrap();
+            let cal = CalendarTimeBucketer::new(TimeConfig { timezone: Some(t[4].clone()), week_start: ws, use_calendar_bucketing: true });
+            format!("B {}", cal.bucket_of(ts, &g))
+        }
         _ => "UNKNOWN_PROBE".into(),
     }
 }
